@@ -607,14 +607,16 @@ def run(chk):
                        "integrand_func_factory(islast=True) returns H y / coef; with projector or inverse overlaps the operator is not Hermitian",
                        "tableau coefficients as proved by C19"]
     chk.rule("krylov-hermitian", "operand of expm_krylov is a real multiple of a Hermitian operator for every time mode", 8)
-    chk.rule("solver-sibling", "Krylov and ODE branch integrate the same exponent (real and imaginary time)", 12)
+    chk.rule("solver-sibling", "abstract runs of the tangent-space schemes with both local solvers (real and imaginary step, both sweep directions): call by call the same exponent on the same effective operator, forward / backward half (full) steps", 12)
     chk.rule("heff-network", "effective-Hamiltonian matvec == canonical network", 7)
     chk.rule("must-compress", "propagate-and-compress evolvers return compressed states", 7)
     chk.rule("adaptive-reject", "adaptive step controllers keep the pre-step state until the trial is accepted", 2)
     chk.rule("rk-usage", "abstract run of the propagate-and-compress evolvers in the free algebra of time-ordered operator words: one step of the general evolver is the Runge-Kutta "
                          "formula of every tableau, an adaptive run is the composition of its accepted sub-steps with the prescribed error estimate, RK4 and Taylor evolvers equal their formulas", 16)
-    krylov_rule(chk, src, "krylov-hermitian", [MPS, TEVO])
-    solver_sibling_rule(chk, src, "solver-sibling")
+    # chain schemes: abstract runs with both local solvers, real and imaginary step (chain_rules.tdvp_solver_rule); tree schemes: typed dataflow to every Krylov call
+    from .chain_rules import tdvp_solver_rule
+    tdvp_solver_rule(chk, src, "solver-sibling", "krylov-hermitian")
+    krylov_rule(chk, src, "krylov-hermitian", [TEVO])
     add_cases(chk, "heff-network", K.hop_expr_cases(src), "effective Hamiltonian")
     must_compress_rule(chk, src, "must-compress")
     adaptive_reject_rule(chk, src, "adaptive-reject")
